@@ -34,10 +34,22 @@ inductive Obj where
   | other (id : Nat)                     -- package, stream, …: only identity is observable
   deriving DecidableEq, Repr
 
-/-- ASCII case folding of one code point (the universe of the correspondence only contains code
-    points on which Go's `unicode.SimpleFold`/`unicode.ToLower` agree with this function; the harness
-    verifies that for every code point it emits). -/
-def foldC (c : Nat) : Nat := if 65 ≤ c ∧ c ≤ 90 then c + 32 else c
+/-- simple case folding of one code point, the canonical member of its folding orbit, for ASCII,
+    Latin-1 (À…Þ), Greek (Α…Ω, final sigma ς with σ) and Cyrillic (А…Я) letters: what Go's
+    `strings.EqualFold` identifies. The correspondence only uses an alphabet on which Go's
+    `unicode.SimpleFold` orbits are exactly the fibres of this function; the harness verifies that for
+    every pair of code points of its alphabet before it emits them (`c16CheckAlphabet`). -/
+def foldC (c : Nat) : Nat :=
+  if 65 ≤ c ∧ c ≤ 90 then c + 32
+  else if 192 ≤ c ∧ c ≤ 222 ∧ c ≠ 215 then c + 32
+  else if 913 ≤ c ∧ c ≤ 937 ∧ c ≠ 930 then c + 32
+  else if c = 962 then 963
+  else if 1040 ≤ c ∧ c ≤ 1071 then c + 32
+  else c
+
+/-- `unicode.ToLower` on the same alphabet (what `equalp` applies to characters): the final sigma
+    is its own lower case -/
+def lowerC (c : Nat) : Nat := if c = 962 then 962 else foldC c
 
 def foldS (s : List Nat) : List Nat := s.map foldC
 
@@ -86,7 +98,7 @@ def equal (x y : Obj) : Bool := eq x y || equalS x y
 def equalpS : Obj → Obj → Bool
   | .nil, .nil => true
   | .num _ _ v, .num _ _ w => v == w
-  | .chr _ c, .chr _ d => foldC c == foldC d
+  | .chr _ c, .chr _ d => lowerC c == lowerC d
   | .str _ s, .str _ t => foldS s == foldS t
   | .sym a, .sym b => foldS a == foldS b
   | .cons _ a b, .cons _ c d => (equalpS a c) && (equalpS b d)
@@ -131,7 +143,7 @@ def key : Obj → Obj
 def keyP : Obj → Obj
   | .nil => .nil
   | .num _ _ v => numKey v
-  | .chr _ c => .chr 0 (foldC c)
+  | .chr _ c => .chr 0 (lowerC c)
   | .str _ s => .str 0 (foldS s)
   | .sym a => .sym (foldS a)
   | .cons _ a b => .cons 0 (keyP a) (keyP b)
